@@ -123,11 +123,6 @@ def lean_files(project, sub):
     return sorted(out)
 
 def load_findings(prop, extra_file=None):
-    """known_findings.txt plus the check's own list of *proposed* findings (same format), until they are merged"""
+    """entries of /verif/known_findings.txt — the only file that can suppress a violation (`extra_file` is ignored)"""
     from . import core
-    out = list(core.load_known_findings().get(prop, []))
-    if extra_file and os.path.exists(extra_file):
-        for l in open(extra_file):
-            m = re.match(r'finding:\s+property=(C\d+)\s+key=\[([^\]]*)\]\s*(.*)', l.strip())
-            if m and m.group(1) == prop and (m.group(2), m.group(3)) not in out: out.append((m.group(2), m.group(3)))
-    return out
+    return list(core.load_known_findings().get(prop, []))
